@@ -53,7 +53,7 @@ def nearest_neighbour(P: Program, R: Report, rule: str) -> None:
                 if "_to_nodes[" in src or "_to_nodes.get(" in src or "_to_node[" in src or "_to_node." in src or any(isinstance(x, ast.Name) and x.id in cands for x in ast.walk(s.value)):
                     cands.add(s.targets[0].id)
                     changed = True
-    if not cands:
+    if not cands and not any(("_to_nodes[" in norm(x) or "_to_node[" in norm(x)) for x in ast.walk(fn) if isinstance(x, (ast.For, ast.Call, ast.Subscript))):
         R.undecided(rule, gtn, fn, "get_track_neighbors picks the time-nearest members of the track", "the list of the track's members was not recognised")
         return
 
